@@ -44,8 +44,9 @@ def _nperms(n: int) -> int:
     return {0: 1, 1: 1, 2: 2, 3: 6}.get(n, 24)
 
 
-class Violation(Exception):
-    """A property violation found by an oracle."""
+class Violation(BaseException):
+    """A property violation found by an oracle.  (A BaseException: oracles also run inside SDK callbacks, and an
+    `except Exception: retry` loop of the SDK must not be able to swallow the verdict and spin on it.)"""
 
     def __init__(self, clause: str, signature: dict[str, Any], detail: str = "") -> None:
         super().__init__(f"{clause}: {detail}")
